@@ -521,6 +521,11 @@ def mut_receivers(rng, C, R, nwin, nested=True):
             out.append(f"@xv({s})")
     if C * R > 0:
         out.append(f"@S({C},{R},{C * R})")
+        # views built over a slice that is LONGER than the view: the cells after the view belong to the caller
+        if R >= 2:
+            out.append(f"@S({C},{R - 1},{C * R})")
+        if C >= 2:
+            out.append(f"@S({C - 1},{R},{C * R})")
     return out
 
 
@@ -651,6 +656,9 @@ def gen_C15(tier, seed):
                 lines += [root, f"@ translate {mc} {mr}"]
         lines += [root, "@ flip_rows", "@ flip_cols", "@x flip_rows", "@x flip_cols", f"@x translate {C // 2} {R // 2}"]
         b.case("u32", lines)
+        for kind in ("zst", "cell"):
+            b.case(kind, [root, f"@ translate {C + 1} 0", f"@ translate 0 {R + 1}", f"@ translate {C} {R}", f"@ translate {U64} 0",
+                          f"@ translate {C // 2} {R // 2}", "@ flip_rows", "@ flip_cols", f"@x translate {C + 1} {R + 1}", "@ dump"])
         for rv in mut_receivers(rng, C, R, 3 if tier == "quick" else 10)[2:]:
             c, r = recv_dims(C, R, rv)
             lines = []
@@ -706,6 +714,19 @@ def gen_sort(pid, tier, seed, ops, by_row):
                     for k in list(range(dim + 2)) + [U64] + wrap_values(C):
                         lines += [root, f"{rv} {op} {k}"]
                 b.case(rng.choice(["u32", "cell"]), lines)
+                # the natural-order variants compare whole values: ties need EQUAL cells on the key line (the other lines stay
+                # distinct so that every column / row keeps its identity)
+                if c * r > 0 and rv in ("@", "@x"):
+                    lines = []
+                    for op in [o for o in ops if o.endswith("_ord")]:
+                        for k in range(dim):
+                            dup = list(vals)
+                            for j in range(C if by_row else R):
+                                pos = k * C + j if by_row else j * C + k
+                                dup[pos] = 5000 + rng.randrange(2)
+                            lines += [f"@ from_vec {C} {R} {fl(dup)}", f"{rv} {op} {k}"]
+                    if lines:
+                        b.case("u32", lines)
     # wide arrays so that an unstable sort really reorders ties and insertion-sort thresholds are crossed
     for n in ([40, 70] if tier == "quick" else [24, 40, 70, 130, 260]):
         for rep in range(2 if tier == "quick" else 5):
@@ -716,6 +737,12 @@ def gen_sort(pid, tier, seed, ops, by_row):
             lines = []
             for op in ops:
                 lines += [root, f"@ {op} {rng.randrange(other)}", root, f"@v(0,0,{C},{R}) {op} 0", root, f"@x {op} 1"]
+                if op.endswith("_ord"):
+                    # long key line with many equal VALUES (two-letter alphabet) on line 0, distinct cells on the other line
+                    dup = list(vals)
+                    for j in range(n):
+                        dup[j if by_row else j * C] = 7000 + rng.randrange(2)
+                    lines += [f"@ from_vec {C} {R} {fl(dup)}", f"@ {op} 0", f"@ from_vec {C} {R} {fl(dup)}", f"@x {op} 0"]
             b.case("u32", lines)
     return b.cases
 
@@ -747,6 +774,12 @@ def gen_C04(tier, seed):
             rvs = [f"@v({s})"]
             if c > 1 and r > 1:
                 rvs.append(f"@v({s})v(1,1,{c},{r})")
+            if w == wins[0] or rng.random() < 0.15:
+                # views built directly over a slice longer than the view (spare cells behind it)
+                if R >= 2:
+                    rvs.append(f"@S({C},{R - 1},{C * R})")
+                if C >= 2:
+                    rvs.append(f"@S({C - 1},{R},{C * R})")
             for rv in rvs:
                 cc, rr = recv_dims(C, R, rv)
                 n = cc * rr
@@ -882,6 +915,12 @@ def gen_C19(tier, seed):
         doc = "{" + sep.join(f"\"{key(k)}\":{rng.choice(['', ' '])}{v}" for k, v in fields) + "}"
         if rng.random() < 0.03:
             doc = rng.choice(["[]", "7", "null", "\"x\"", "{", "{}", "[1,2]", doc[:-1]])
+        elif rng.random() < 0.08:
+            # the same fields as a bare JSON array (a derived / struct-style deserialiser would accept the sequence form): the
+            # property demands an error or a consistent array, never a panic, for these too
+            vals = [v for _, v in fields]
+            rng.shuffle(vals)
+            doc = "[" + sep.join(vals[:rng.choice([len(vals), len(vals), 3, 2])]) + "]"
         docs.append(doc)
     for i in range(0, len(docs), 25):
         lines = []
@@ -1097,6 +1136,10 @@ def hist_ops(rng, C, R, k, elem="u32"):
     return (rng.choice(ops), (C, R))
 
 
+FAULTABLE = {"remove_row": "drop", "remove_col": "drop", "pop_row": "drop", "pop_col": "drop", "clear": "drop", "fill": "clone",
+             "clone_from_slice": "clone", "set": "drop", "rowset": "drop", "colset": "drop", "insert_row": "drop", "insert_col": "drop"}
+
+
 def gen_history(pid, tier, seed, elems, n_hist, length):
     rng = random.Random(seed)
     b = Builder(pid)
@@ -1108,6 +1151,9 @@ def gen_history(pid, tier, seed, elems, n_hist, length):
         for _ in range(rng.randrange(length[0], length[1])):
             line, (C, R) = hist_ops(rng, C, R, k, elem)
             k += 13
+            if elem == "cell" and rng.random() < 0.06 and line.split()[1] in FAULTABLE:
+                # an element's destructor / clone panics at the j-th call during this operation
+                line += f" !{FAULTABLE[line.split()[1]]}:{rng.randrange(3)}"
             lines.append(line)
             if C > 6 or R > 6:
                 lines.append("@ clear"); C = R = 0
@@ -1167,11 +1213,28 @@ def register():
             GENS[k[4:]] = v
 
 
+OTHER_KINDS = {"C04", "C13", "C14", "C15", "C16", "C17"}     # in-place algorithms: written for u32 cases, re-run on the other kinds
+ITER_WORDS = ("rows_mut", "cells_mut", "col_mut", "iter_mut", "row_pair", "rows ", "cells ", "col ", "iter_ref")
+
+
 def generate(pid, tier, seed):
     register()
     if pid not in GENS:
         raise SystemExit(f"no generator for {pid}")
-    return GENS[pid](tier, seed)
+    cases = GENS[pid](tier, seed)
+    if pid in OTHER_KINDS:
+        # the element type is a dimension of its own (drop glue, zero size): a sample of the u32 cases is repeated on ledgered
+        # cells and on zero-sized elements (iterator lines are left out for zero-sized elements: positions are not observable)
+        rng = random.Random(seed + 4242)
+        extra = []
+        for c in cases:
+            if c[0].endswith("elem=u32") and rng.random() < (0.12 if tier == "quick" else 0.25):
+                for kind in ("cell", "zst"):
+                    body = [l for l in c[1:-1] if not (kind == "zst" and any(w in l for w in ITER_WORDS))]
+                    if body:
+                        extra.append([c[0].replace("elem=u32", f"elem={kind}").replace(f"case {pid}-", f"case {pid}k-")] + body + ["end"])
+        cases = cases + extra
+    return cases
 
 
 NT = "; a step counts as distinct/non-trivial by the pair (operation line, root state before it)"
@@ -1195,7 +1258,7 @@ RULES = {
     "C16": "all shapes <= 4x4 (5x5) x 6 row variants x every row index 0..dim+1 and 2^64-1 x root/ext/views, keys drawn from a 3-letter alphabet with distinct cells (all tie patterns over the repetitions); wide arrays 40-70 (24-260) columns x 2 rows with a 2-letter alphabet" + NT,
     "C17": "as C16 for the 5 column variants (tall arrays)",
     "C18": "all shapes <= 4x4 (6x6), 1x9, 9x1, 7x5 with boundary u32 values x {u32,cell} x 4 transports; views, shared views and slice-built views (u32); plus arrays and full / interior windows of 17x16, 65x64, 1x5000, 5000x1 (33x32, 129x128) cells, crossing typical preallocation thresholds" + NT,
-    "C19": "600 (6000) grammar-generated documents (missing / duplicated / unknown / escaped keys, dimension values 0..6, 2^32, 2^63, 2^64-1, 2^64, -1, 1.5, 1e2, \"3\", null, [], {}, true, 01; data length product-1..product+2, ill-typed elements, non-array data, non-object documents, truncated text) x 4 transports; well-formed documents on ledgered cells" + NT,
+    "C19": "600 (6000) grammar-generated documents (objects, and the same fields as bare arrays in every order; missing / duplicated / unknown / escaped keys, dimension values 0..6, 2^32, 2^63, 2^64-1, 2^64, -1, 1.5, 1e2, \"3\", null, [], {}, true, 01; data length product-1..product+2, ill-typed elements, non-array data, non-object documents, truncated text) x 4 transports; well-formed documents on ledgered cells" + NT,
 }
 
 
